@@ -25,13 +25,17 @@ from harness.common import Check, coq_bool, coq_list, coq_nat, coq_Z
 
 REGISTRY = dict(
     text=("Proof (unbounded): for every history of steps and resets (refused ones included) Monitor's episode info is (sum, count) of exactly the accepted steps since the "
-          "last accepted reset, the results file lists the reported episodes in order; same for VecMonitor per sub-environment (any interleaving of episode ends and vector "
+          "last accepted reset, the rows handed to the results file are the reported episodes in order (partial: CSV text / pandas not modelled), load_results over several files = "
+          "rows shifted by each file's own t_start and sorted; same for VecMonitor per sub-environment (any interleaving of episode ends and vector "
           "resets, environments independent); evaluate_policy's quotas (n+i)//k (regenerated from evaluation.py) sum to n and differ by at most 1, and whenever the loop stops "
-          "it returns exactly n results which are, per sub-environment, its first quota_i completed episodes with their true return and length, for arbitrary episode streams. "
+          "it returns exactly n results which are, per sub-environment, its first quota_i completed episodes with their true return and length, for arbitrary episode streams "
+          "(a done without 'episode' entry under a monitor - a lost life - is not counted). Known finding F22 monitor-append-mode-episodes-misordered-by-load-results "
+          "(Monitor(override_existing=False) appends rows whose t restarts; load_results then misorders them) is reproduced from a fixed corpus input. "
           "Tie: fragment translator (guards, accumulators, quota) + correspondence on real Monitor / VecMonitor / evaluate_policy over scripted environments."),
     note=("Trusted: Coq 8.16.1 kernel (vm_compute, no native_compute), translate/py2coq.py + specs/monitor.py, harness/c18.py + scripted_envs.py, Python/numpy/pandas/gymnasium. "
           "Not verified: the wall-clock column t (fake strictly increasing clock in the harness), pandas' CSV reader (only exercised), float accumulation "
-          "(rewards are multiples of 0.25: exact in float32/float64 and stable under round(., 6)). All C18 theorems are closed under the global context (no axioms)."),
+          "(rewards are multiples of 0.25: exact in float32/float64 and stable under round(., 6); a quarter of the Monitor / VecMonitor histories use other rewards, checked by the oracle "
+          "with explicit tolerances). All C18 theorems are closed under the global context (no axioms)."),
     technique="machine-checked proof in Coq (induction over histories, index arithmetic) + regenerated-fragment interface lemmas + differential correspondence",
 )
 
